@@ -170,7 +170,7 @@ func (l *ledGen) reannounce() {
 		return
 	}
 	b := l.synced[l.r.Intn(len(l.synced)-1)+0]
-	if b == "G" {
+	if b == "G" || !l.rollbackSafe(l.blocks[b].height) {
 		return
 	}
 	l.g.Stats["notify-reannounce"]++
@@ -220,4 +220,19 @@ func (l *ledGen) banPool() {
 	for _, p := range l.pool {
 		l.dead[p.name] = true
 	}
+}
+
+// rollbackSafe: a wallet-only rollback to height h stays inside C09's compared domain when no defined
+// transaction spends a STRANGER's coinbase output created above h (known finding C09 foreign-coinbase-orphan:
+// Rollback purges the pending spenders of the wallet's coinbase credits only; the random stream avoids other
+// instances – reorganisations stay within maxReorg, a duplicate notification of an old block may go deeper).
+func (l *ledGen) rollbackSafe(h int) bool {
+	for _, t := range l.defined {
+		for _, c := range t.ins {
+			if c.cb && l.owner[c.addr] == "" && c.height > h {
+				return false
+			}
+		}
+	}
+	return true
 }
